@@ -1,26 +1,29 @@
 (* C04 — reading IMSC/TTML XML follows TTML timing semantics.
-   Only statements, `exact`, and Print Assumptions.  M = Model/ImscTime.v, Model/ImscTiming.v (transcription of
-   ttconv/imsc/utils.py, attributes.py, elements.py), S = Spec/TtmlTimingSpec.v.  All statements are for unbounded
-   inputs (every time expression of the grammar, every XML tree, every parsing context). *)
-From TT Require Import Base.Prelude Base.ImscXml Model.ImscTime Model.ImscStyles Model.ImscTiming Model.ImscTriggers Spec.TtmlTimingSpec.
-From TT Require Import Proofs.C04.TimeSyntax Proofs.C04.TimeReject Proofs.C04.Interval Proofs.C04.Total Proofs.C04.TotalSeq Proofs.C04.Params Proofs.C04.BadAttr Proofs.C04.Styles.
+   Only statements, `exact`, and Print Assumptions.  M = Model/ImscTime.v, Model/ImscTiming.v, Model/ImscStyles.v (transcription of
+   ttconv/imsc/utils.py, attributes.py, elements.py), S = Spec/TtmlTimingSpec.v, Spec/TtmlStyleSpec.v.  All statements are for
+   unbounded inputs (every string, every attribute list, every XML tree, every parsing context, every style table). *)
+From TT Require Import Base.Prelude Base.ImscXml Model.ImscTime Model.ImscStyles Model.ImscTiming Spec.TtmlTimingSpec.
+From TT Require Import Proofs.C04.TimeSyntax Proofs.C04.TimeReject Proofs.C04.Interval Proofs.C04.Total Proofs.C04.Params Proofs.C04.BadAttr Proofs.C04.Styles Proofs.C04.Flatten.
 From Coq Require Import QArith.
 Local Open Scope Z_scope.
 
 (* every member of the TTML2 <time-expression> grammar (clock time with fraction, clock time with frames, and the
    h / m / s / ms / f / t offsets), printed, is parsed to the value the grammar gives it under the frame rate and the
    tick rate; a frames term that is not smaller than the frame rate is rejected *)
-Theorem C04_time_syntax : forall e tr fr, wf_texpr e = true -> 0 < tr -> (0 < fr)%Q ->
-  tres_equiv (parse_time_x (Some tr) (Some fr) (print_time e)) (time_value fr (inject_Z tr) e).
+Theorem C04_time_syntax : forall e tr fr, wf_texpr e = true -> (0 < tr)%Q -> (0 < fr)%Q ->
+  tres_equiv (parse_time_x (Some tr) (Some fr) (print_time e)) (time_value fr tr e).
 Proof. exact time_syntax. Qed.
 
 (* a string whose last character is neither a digit nor a metric letter is not a time expression *)
 Theorem C04_time_not_in_grammar : forall l c, is_digit c = false -> ~ In c [104; 109; 115; 102; 116] -> ~ in_grammar (l ++ [c]).
 Proof. exact not_in_grammar_last. Qed.
-(* rejection: a string outside the grammar has no value, unless it ends with a line feed or is a frame offset followed by anything
-   (executable trigger lax_trigger: the finding lax-value-syntax; the unconditional statement is refuted in Findings/C04.v) *)
-Theorem C04_time_reject_partial : forall tr fr s, lax_trigger s = false -> ~ in_grammar s -> parse_time tr fr s = None.
+(* rejection: every string outside the grammar has no value, whatever the rates; under non-zero rates it is reported as malformed
+   (ValueError: logged, attribute ignored) *)
+Theorem C04_time_reject : forall tr fr s, ~ in_grammar s -> parse_time tr fr s = None.
 Proof. exact time_reject. Qed.
+Theorem C04_time_reject_malformed : forall tr fr s, ~ in_grammar s -> Qeq_bool tr 0 = false -> Qeq_bool fr 0 = false ->
+  parse_time_x (Some tr) (Some fr) s = TBad.
+Proof. exact time_reject_bad. Qed.
 
 (* intervals: for every XML tree x and every parsing context in which the reader model returns (and reports no
    content-model error), its desired begin and end of x are the begin and end of the TTML2 interval semantics of x,
@@ -33,35 +36,30 @@ Theorem C04_interval : forall ev x pc r,
     oq_rel (r_des_end r) (snd (interval (tv_of ev) (negb (pc_par pc)) sync x)).
 Proof. exact interval_sound. Qed.
 
-(* totality: with non-zero rates, a tree without sequential containers is always read, unless set_style raises ValueError during
-   referential or nested styling (outcome 5, finding style-invalid-value-abort).  The unconditional statement is refuted in
-   Findings/C04.v (C04_read_total_refuted: finding seq-indefinite-sibling; C04_zero_rate_refuted; C04_style_abort_refuted). *)
-Theorem C04_read_total_partial : forall ev x pc, rates_ok ev -> pc_par pc = true -> no_seq x = true ->
-  forall e, process ev pc x = PErr e -> e = 5.
-Proof. intros ev x pc H. exact (read_total_no_seq ev x H pc). Qed.
+(* totality: with non-zero rates no exception leaves process, for every tree (par and seq containers, any content model, any
+   style table) in every context that has a syncbase; the parameter readers never return a zero rate; hence every <tt> tree is
+   read, whatever its attribute values *)
+Theorem C04_process_total : forall ev x pc, rates_ok ev -> implicit_begin pc <> None -> forall e, process ev pc x <> PErr e.
+Proof. intros ev x pc H. exact (process_total ev x H pc). Qed.
+Theorem C04_rates_positive : forall attrs, (0 < extract_frame_rate attrs)%Q /\ (0 < extract_tick_rate attrs)%Q.
+Proof. intro attrs. split; [apply frame_rate_positive|apply tick_rate_positive]. Qed.
+Theorem C04_read_total : forall tm vl x, exists d, read_tt tm vl x = DOk d.
+Proof. exact read_tt_total. Qed.
 
-(* the same with sequential containers and the narrow trigger of the finding seq-indefinite-sibling (Model/ImscTriggers.v: a timed child of
-   a seq container follows a sibling whose TTML2 end is indefinite, or a seq br/set/region in a par parent has a timed child): on a
-   tree with a plain content model (no ruby containers; children of the kinds their parents accept) on which the trigger does not
-   fire, process never raises TypeError or ZeroDivisionError, in any context that has a syncbase *)
-Theorem C04_read_total_seq_partial : forall ev x pc, rates_ok ev -> simple_content x = true -> implicit_begin pc <> None ->
-  trigger_seq (tv_of ev) (negb (pc_par pc)) x = false -> forall e, process ev pc x = PErr e -> e = 5.
-Proof. intros ev x pc Hr Hs. exact (read_total_narrow ev x Hr Hs pc). Qed.
-
-(* document parameters on well-formed attribute values *)
-Theorem C04_frame_rate : forall attrs fr mult, frame_rate_wf attrs fr mult ->
-  exists q, extract_frame_rate attrs = Some q /\ (q == spec_frame_rate attrs)%Q /\ (q == inject_Z fr * mult)%Q.
+(* document parameters, for EVERY attribute list (well-formed, malformed, zero or absent values): the effective frame rate and the
+   tick rate the reader uses are those of TTML2 7.2 (malformed values ignored; tick rate default = effective frame rate when
+   ttp:frameRate is specified, else 1) *)
+Theorem C04_frame_rate : forall attrs, (extract_frame_rate attrs == spec_frame_rate attrs)%Q.
+Proof. exact frame_rate_spec. Qed.
+Theorem C04_tick_rate : forall attrs, (extract_tick_rate attrs == spec_tick_rate attrs)%Q.
+Proof. exact tick_rate_spec. Qed.
+Theorem C04_frame_rate_given : forall attrs fr mult, frame_rate_wf attrs fr mult -> (extract_frame_rate attrs == inject_Z fr * mult)%Q.
 Proof. exact frame_rate_given. Qed.
-Theorem C04_tick_rate_partial : forall attrs s n, get_attr attrs A_tickRate = Some s -> pos_int s = Some n ->
-  extract_tick_rate attrs = n /\ (spec_tick_rate attrs == inject_Z n)%Q.
-Proof. exact tick_rate_given. Qed.
-Theorem C04_tick_rate_default_partial : forall attrs, get_attr attrs A_tickRate = None -> spec_frame_rate_attr attrs = None ->
-  extract_tick_rate attrs = 1 /\ (spec_tick_rate attrs == 1)%Q.
-Proof. exact tick_rate_default. Qed.
 
 (* malformed attributes are ignored: the element is read exactly as without the attribute, in every context, for a begin / dur / end
    value that is not a time expression, an xml:space value other than default / preserve, a timeContainer value other than seq (par is
-   the default); and a style attribute whose value is rejected is skipped by specified styling *)
+   the default), a tts:ruby value that is not one of the six keywords; a style attribute whose value is rejected is skipped by specified
+   styling, and a value the model rejects in a referenced or nested <style> is skipped by referential / nested styling *)
 Theorem C04_bad_attr_ignored_time : forall ev pc tag attrs txt tail cs a s,
   time_attr a -> get_attr attrs a = Some s -> parse_time_x (Some (e_tr ev)) (Some (e_fr ev)) s = TBad ->
   (forall v, e_to_model ev a v = None) ->
@@ -77,42 +75,90 @@ Theorem C04_bad_attr_ignored_time_container : forall ev pc tag attrs txt tail cs
   (forall w, e_to_model ev A_timeContainer w = None) ->
   process ev pc (X tag attrs txt tail cs) = process ev pc (X tag (remove_attr attrs A_timeContainer) txt tail cs).
 Proof. exact bad_time_container_ignored. Qed.
+Theorem C04_bad_attr_ignored_ruby : forall ev pc tag attrs txt tail cs v,
+  get_attr attrs A_ruby = Some v -> ruby_keyword v = false -> (forall w, e_to_model ev A_ruby w = None) ->
+  process ev pc (X tag attrs txt tail cs) = process ev pc (X tag (remove_attr attrs A_ruby) txt tail cs).
+Proof. exact bad_ruby_ignored. Qed.
 Theorem C04_bad_attr_ignored_style : forall tm vl attrs a v,
   get_attr attrs a = Some v -> (tm a v = None \/ exists p x, tm a v = Some (p, x) /\ vl p x = false) ->
   forall d, NoDup (List.map fst attrs) -> apply_specified tm vl attrs d = apply_specified tm vl (remove_attr attrs a) d.
 Proof. exact bad_style_attr_ignored. Qed.
-(* the unconditional "every malformed attribute is ignored and logged" is refuted for the cases of the findings lax-value-syntax,
-   zero-rate-division, tt-parameter-abort, bad-ruby-drops-span, style-invalid-value-abort, lax-style-syntax (Findings/C04.v and the
-   corrupt stream of the check); log records are not modelled. *)
+Theorem C04_bad_attr_in_style_element_ignored : forall tm vl attrs a v,
+  get_attr attrs a = Some v -> (tm a v = None \/ exists p x, tm a v = Some (p, x) /\ vl p x = false) ->
+  forall d, NoDup (List.map fst attrs) -> collect tm vl attrs d = collect tm vl (remove_attr attrs a) d.
+Proof. exact bad_attr_in_style_element_ignored. Qed.
+Theorem C04_bad_value_in_style_ignored : forall vl s1 k x s2, vl k x = false ->
+  forall d, merge_absent vl (s1 ++ (k, x) :: s2) d = merge_absent vl (s1 ++ s2) d.
+Proof. exact invalid_style_value_ignored. Qed.
+(* not covered: attributes the reader does not know are ignored without a log record (finding unknown-attribute-not-logged; log records
+   are not modelled). *)
 
 (* style precedence of the reader model, as look-up equations for every property p: specified styling makes an inline value win over
-   what the element had; set-if-absent keeps what the element has (nested styling before referential); references are visited later
-   ones first and the first style that has p provides it.  Chained references are flattened beforehand (merge_chained): that step is
-   compared with Spec/TtmlStyleSpec.v on generated style graphs only. *)
+   what the element had; set-if-absent keeps what the element has (nested styling before referential) and takes the first valid value
+   of the style; references are visited later ones first and the first style that has (a valid value of) p provides it *)
 Theorem C04_styles_inline : forall tm vl attrs d p,
   dict_get (apply_specified tm vl attrs d) p = inline_value tm vl attrs p (dict_get d p).
 Proof. exact specified_get. Qed.
-Theorem C04_styles_set_if_absent : forall vl src d d' p, merge_absent vl src d = Some d' ->
-  dict_get d' p = match dict_get d p with Some x => Some x | None => dict_get src p end.
+Theorem C04_styles_set_if_absent : forall vl src d p,
+  dict_get (merge_absent vl src d) p = match dict_get d p with Some x => Some x | None => valid_get vl src p end.
 Proof. exact merge_absent_get. Qed.
-Theorem C04_styles_referential : forall vl t refs d d' p, referential vl t refs d = Some d' ->
-  dict_get d' p = match dict_get d p with Some x => Some x | None => first_provider t refs p end.
+Theorem C04_styles_referential : forall vl t refs d p,
+  dict_get (referential vl t refs d) p = match dict_get d p with Some x => Some x | None => first_provider vl t refs p end.
 Proof. exact referential_get. Qed.
 
-(* non-vacuity: "00:00:01:12" at 25 fps is 1.48 s; <div begin="1s"><p dur="2s"/><p end="5s"/></div> ends at 6 s *)
+(* chained referential styling: StylingElement.from_xml flattens the table with merge_chained (on every style, in declaration order,
+   mutating the table as it goes).  For a table whose reference graph has no loop (loops are an error in TTML2) - whatever the order in
+   which the styles are declared, with diamonds, missing references - every style ends without references and with the dictionary of
+   its TTML2 resolution [resolve]: its own attributes first, then the resolutions of the styles it references, later references first.
+   [rank] is any numbering that decreases along the references to defined styles and stays below the size of the table. *)
+Theorem C04_styles_flatten : forall t rank, acyclic_ranked t rank ->
+  forall i s, tbl_get (flatten t) i = Some s -> st_refs s = [] /\ forall p, dict_get (st_styles s) p = resolve t (length t) i p.
+Proof. exact flatten_resolves. Qed.
+(* hence the result does not depend on the declaration order: two tables with the same styles under the same identifiers give the same
+   look-ups *)
+Theorem C04_styles_flatten_order_independent : forall t u rank, acyclic_ranked t rank -> acyclic_ranked u rank ->
+  (forall j, tbl_get t j = tbl_get u j) -> length t = length u ->
+  forall i s s' p, tbl_get (flatten t) i = Some s -> tbl_get (flatten u) i = Some s' -> dict_get (st_styles s) p = dict_get (st_styles s') p.
+Proof. exact flatten_order_independent. Qed.
+(* [resolve] on the model's table is compared with Spec/TtmlStyleSpec.v style_set on the XML (attribute strings, well-formedness table)
+   on generated style graphs: any declaration order, depth up to 6, diamonds, conflicting properties. *)
+
+(* non-vacuity: "00:00:01:12" at 25 fps is 1.48 s; <div begin="1s"><p dur="2s"/><p end="5s"/></div> ends at 6 s; a seq container whose
+   first child never ends is read, with that child only *)
 Example C04_example_clock_frames :
-  parse_time (Some 1) (Some (25 # 1)) (print_time (TClockFrames [0; 0] 0 0 0 1 [1; 2])) = Some (0 * 3600 + 0 * 60 + 1 + (12 # 1) / (25 # 1))%Q.
+  parse_time (Some 1%Q) (Some (25 # 1)) (print_time (TClockFrames [0; 0] 0 0 0 1 [1; 2])) = Some (0 * 3600 + 0 * 60 + 1 + (12 # 1) / (25 # 1))%Q.
 Proof. reflexivity. Qed.
 Example C04_example_interval :
   let x := X T_div [(A_begin, [49; 115])] None None [X T_p [(A_dur, [50; 115])] None None []; X T_p [(A_end, [53; 115])] None None []] in
-  match process (mkEnv 1 (30 # 1) [] (fun _ _ => None) (fun _ _ => true) []) (mkPctx true None 0 false [] true) x with
+  match process (mkEnv 1 (30 # 1) [] (fun _ _ => None) (fun _ _ => true) []) (mkPctx true (Some 0%Q) false [] true) x with
   | POk r => Qeq_bool (r_des_begin r) 1 && match r_des_end r with Some e => Qeq_bool e 6 | None => false end && negb (r_pushfail r)
   | _ => false
   end = true.
 Proof. vm_compute. reflexivity. Qed.
+Example C04_example_seq_indefinite :
+  let x := X T_div [(A_timeContainer, V_seq)] None None [X T_p [] (Some [97]) None []; X T_p [] (Some [98]) None []] in
+  match process (mkEnv 1 (30 # 1) [] (fun _ _ => None) (fun _ _ => true) []) (mkPctx true (Some 0%Q) false [] true) x with
+  | POk r => match r_node r with Some (MElem _ _ _ None _ _ _ _ _ [MElem KP _ _ _ _ _ _ _ _ _]) => true | _ => false end
+  | _ => false
+  end = true.
+Proof. vm_compute. reflexivity. Qed.
+(* a style declared before the styles it references (c -> b -> a, declared c, b, a): the hypotheses of C04_styles_flatten hold and the nearer style wins *)
+Example C04_example_flatten :
+  let ta := mkSty [97] [(1, SO 10); (2, SO 20)] [] in
+  let tb := mkSty [98] [(1, SO 11)] [[97]] in
+  let tc := mkSty [99] [(3, SO 30)] [[98]] in
+  let t := [tc; tb; ta] in
+  acyclic_ranked t (fun i => match i with [97] => O | [98] => 1%nat | _ => 2%nat end) /\
+  match tbl_get (flatten t) [99] with
+  | Some s => (dict_get (st_styles s) 1, dict_get (st_styles s) 2, dict_get (st_styles s) 3) = (Some (SO 11), Some (SO 20), Some (SO 30))
+  | None => False
+  end.
+Proof. exact flatten_example. Qed.
 
-Print Assumptions C04_time_syntax.  Print Assumptions C04_time_not_in_grammar.  Print Assumptions C04_time_reject_partial.  Print Assumptions C04_interval.
-Print Assumptions C04_read_total_partial.  Print Assumptions C04_read_total_seq_partial.  Print Assumptions C04_frame_rate.  Print Assumptions C04_tick_rate_partial.
-Print Assumptions C04_tick_rate_default_partial.
+Print Assumptions C04_time_syntax.  Print Assumptions C04_time_not_in_grammar.  Print Assumptions C04_time_reject.  Print Assumptions C04_time_reject_malformed.
+Print Assumptions C04_interval.  Print Assumptions C04_process_total.  Print Assumptions C04_rates_positive.  Print Assumptions C04_read_total.
+Print Assumptions C04_frame_rate.  Print Assumptions C04_tick_rate.  Print Assumptions C04_frame_rate_given.
 Print Assumptions C04_bad_attr_ignored_time.  Print Assumptions C04_bad_attr_ignored_space.  Print Assumptions C04_bad_attr_ignored_time_container.
-Print Assumptions C04_bad_attr_ignored_style.  Print Assumptions C04_styles_inline.  Print Assumptions C04_styles_set_if_absent.  Print Assumptions C04_styles_referential.
+Print Assumptions C04_bad_attr_in_style_element_ignored.  Print Assumptions C04_bad_attr_ignored_ruby.  Print Assumptions C04_bad_attr_ignored_style.  Print Assumptions C04_bad_value_in_style_ignored.
+Print Assumptions C04_styles_inline.  Print Assumptions C04_styles_set_if_absent.  Print Assumptions C04_styles_referential.
+Print Assumptions C04_styles_flatten.  Print Assumptions C04_styles_flatten_order_independent.
